@@ -12,7 +12,9 @@ EXTENDS Integers, Sequences, FiniteSets, TLC
 CONSTANTS MaxReqs,        \* requests per behaviour
           MaxHandles,     \* handle tokens 0..MaxHandles may be named by a request
           FixFsetstat,    \* TRUE: FSETSTAT on an unknown handle is answered with a STATUS packet
-          FixCheckFile    \* TRUE: check-file always terminates (see CheckFile.tla)
+          FixCheckFile,   \* TRUE: check-file always terminates (see CheckFile.tla)
+          HandleFaults,   \* may an operation of the served handle (read / write / stat / chattr / close) raise?
+          ReplyBeforeClose \* mutation: CLOSE of a file handle is acknowledged before SFTPHandle.close() is called
 
 Kinds == {"open", "close", "read", "write", "lstat", "fstat", "setstat", "fsetstat", "opendir", "readdir",
           "remove", "mkdir", "rmdir", "realpath", "stat", "rename", "readlink", "symlink",
@@ -50,9 +52,11 @@ Init == /\ files = {} /\ dirs = {} /\ nexth = 1 /\ inq = <<>>
         /\ nsent = 0 /\ nserved = 0 /\ nresp = 0 /\ last = NoLast /\ spinning = FALSE
 
 \* the client may name any token; `hard` marks a check-file range on which the pinned loop does not end
-Send(kind, h, hard) ==
+\* `boom`: the SFTPHandle method this request ends up calling raises (e.g. a deferred write error reported by close());
+\* start_subsystem's catch-all then answers with a FAILURE status
+Send(kind, h, hard, boom) ==
   /\ nsent < MaxReqs /\ Len(inq) < 2
-  /\ inq' = Append(inq, [kind |-> kind, id |-> nsent + 1, h |-> h, hard |-> hard])
+  /\ inq' = Append(inq, [kind |-> kind, id |-> nsent + 1, h |-> h, hard |-> hard, boom |-> boom])
   /\ nsent' = nsent + 1
   /\ UNCHANGED <<files, dirs, nexth, nserved, nresp, last, spinning>>
 
@@ -68,6 +72,16 @@ Serve ==
                   /\ spinning' = TRUE
                   /\ last' = [kind |-> q.kind, id |-> q.id, valid |-> v, hard |-> q.hard, resp |-> <<>>]
                   /\ UNCHANGED <<files, dirs, nexth, nresp>>
+             ELSE IF q.boom /\ v /\ q.h \in files
+             THEN \* the handle method raises.  Pinned code: nothing has been sent yet, the catch-all sends one FAILURE
+                  \* status (a failed close() leaves the handle in the table).  Mutation: the handle was popped and
+                  \* OK was sent before close() raised, and the catch-all adds a second status with the same id.
+                  LET two == q.kind = "close" /\ ReplyBeforeClose IN
+                  /\ last' = [kind |-> q.kind, id |-> q.id, valid |-> v, hard |-> q.hard,
+                              resp |-> IF two THEN <<Resp(q, "STATUS"), Resp(q, "STATUS")>> ELSE <<Resp(q, "STATUS")>>]
+                  /\ nresp' = nresp + (IF two THEN 2 ELSE 1)
+                  /\ files' = IF two THEN files \ {q.h} ELSE files
+                  /\ UNCHANGED <<dirs, nexth, spinning>>
              ELSE \E t \in (IF ~v
                               THEN (IF q.kind = "fsetstat" /\ ~FixFsetstat THEN {"OTHER"} ELSE {"STATUS"})
                               ELSE Allowed(q.kind, TRUE)) :
@@ -83,8 +97,10 @@ Serve ==
                   /\ UNCHANGED spinning
   /\ UNCHANGED nsent
 
-Next == Serve \/ \E k \in Kinds, h \in 0..MaxHandles, hard \in BOOLEAN :
-                    (hard => k = "ext_check_file") /\ (h # 0 => k \in TakesHandle) /\ Send(k, h, hard)
+Next == Serve \/ \E k \in Kinds, h \in 0..MaxHandles, hard \in BOOLEAN, boom \in BOOLEAN :
+                    /\ (hard => k = "ext_check_file") /\ (h # 0 => k \in TakesHandle)
+                    /\ (boom => HandleFaults /\ k \in NeedsFile \cup NeedsAny /\ h # 0 /\ ~hard)
+                    /\ Send(k, h, hard, boom)
 Spec == Init /\ [][Next]_vars
 FairSpec == Spec /\ WF_vars(Serve)
 
